@@ -8,7 +8,7 @@ import numpy as np
 import vlib
 from vlib import fbits, bitsf
 
-LEVEL_TEXT = ('Lean 4 theorems about the executable model of fourier.dft2/idft2 instantiated at ℂ/ℝ, for all shapes, real '
+LEVEL_TEXT = ('Lean 4 theorems about the executable model of fourier.dft2/idft2 instantiated at ℂ/ℝ; the model is proved equal to the wiring regenerated from fourier.py on every run (centring, which offset/shift/sampling feeds which matrix factor, .T, product order, unitary factor, idft2 plumbing); for all shapes, real '
               'samplings α_r ≠ α_c, real shifts, integer offsets and both flags: the triple product equals the defining double sum '
               'with factor √|α_r α_c| exactly when unitary; linearity; zero-padded embedding = sub-array with offset; shift = input phase ramp; on a full period (α = 1/m, 1/n, equal shapes, same flag) '
               'idft2 ∘ dft2 = id, and under the unitary flag dft2 and idft2 conserve Σ|·|² (roots-of-unity orthogonality). The '
@@ -17,11 +17,11 @@ LEVEL_NOTE = ('Trusted: Lean kernel + Mathlib; that np.dot/np.outer/np.exp compu
               'writes (checked differentially to 1e-9 relative, not proved); floating-point rounding is not modelled. The out= '
               'clause is carried by the correspondence and the oracle only (a functional model has no buffers).')
 TECHNIQUE = 'Lean 4 proof (Finset sums, Complex.exp, primitive roots of unity) over a generic executable model + differential correspondence'
-GEN = []
+GEN = ['FourierWiring']
 OPS = ['C01']
 RULE = ('cases: dft2 / idft2 with input and output shapes drawn independently from 1..7 (thorough 1..12 with a 5 % tail up to 16; forced 1x1, single row/column, '
         'even/odd, non-square), complex Gaussian data, per-axis α drawn independently from {1/n_in, 1/n_out, random in ±(0.01,0.6)}, '
-        'real shifts in [-3,3], integer offsets in [-9,9], both flags, with and without out=, bursts of repeated shapes with fresh '
+        'real shifts in [-3,3], integer offsets in [-9,9], both flags, scalar / pair / default forms of alpha, shape, shift, offset, complex / float / int64 input, with and without out= (incl. a real buffer that must be refused), the call made on the caller\'s own array, bursts of repeated shapes with fresh '
         'offsets (coordinate cache); plus full-period round trips. distinct = (kind, shapes, α class per axis, shift/offset zero-ness, '
         'flags) signature with values; non-trivial = outside the region the test-suite samples (square α = 1/n isotropic, zero '
         'shift and offset, fresh allocation)')
@@ -83,8 +83,22 @@ def _case(rng, kmax, prev=None):
     shift = [0.0, 0.0] if rng.integers(0, 4) == 0 else [float(rng.uniform(-3, 3)), float(rng.uniform(-3, 3))]
     if rng.integers(0, 6) == 0: shift = [float(rng.integers(-3, 4)), float(rng.integers(-3, 4))]
     offset = [0, 0] if (kind == 'idft2' or rng.integers(0, 4) == 0) else [int(rng.integers(-9, 10)), int(rng.integers(-9, 10))]
+    forms = {}
+    if rng.integers(0, 4) == 0:          # the documented scalar / default argument forms (broadcast_to(x, (2,)) paths)
+        t = int(rng.integers(0, 4))
+        if t == 0: ac, cl = ar, cr; forms['alpha'] = 'scalar'
+        elif t == 1: oshape = (oshape[0], oshape[0]); forms['shape'] = 'scalar'
+        elif t == 2: shift = [shift[0], shift[0]]; forms['shift'] = 'scalar'
+        else: ac, cl = ar, cr; oshape = (oshape[0], oshape[0]); shift = [shift[0], shift[0]]; forms.update(alpha='scalar', shape='scalar', shift='scalar')
+    if oshape == shape and rng.integers(0, 2): forms['shape'] = 'none'
+    if shift == [0.0, 0.0] and rng.integers(0, 2): forms['shift'] = 'default'
+    if offset == [0, 0] and kind == 'dft2' and rng.integers(0, 2): forms['offset'] = 'default'
+    if kind == 'dft2' and offset[0] == offset[1] and rng.integers(0, 2): forms['offset'] = 'scalar'
+    dtype = 'complex'
+    if not any(im) and rng.integers(0, 2): dtype = 'int' if all(x == round(x) for x in re) else 'float'
+    outk = ['none', 'none', 'ok', 'ok', 'float'][int(rng.integers(0, 5))] if rng.integers(0, 2) else 'none'
     return {'kind': kind, 'shape': list(shape), 'oshape': list(oshape), 're': re, 'im': im, 'alpha': [ar, ac], 'aclass': [cr, cl],
-            'shift': shift, 'offset': offset, 'unitary': unitary, 'out': bool(rng.integers(0, 3) == 0)}
+            'shift': shift, 'offset': offset, 'unitary': unitary, 'out': outk == 'ok', 'out_kind': outk, 'forms': forms, 'dtype': dtype}
 
 def generate(rng, tier):
     n, kmax = {'quick': (300, 7), 'thorough': (8000, 12), 'search': (1500, 7)}[tier]
@@ -100,7 +114,7 @@ def _full_period(c):
 def signature(c):
     z = lambda v: 'z' if v[0] == 0 and v[1] == 0 else 'nz'
     return (f"{c['kind']} {c['shape']}->{c['oshape']} a={c['alpha']} sh={c['shift']} off={c['offset']} "
-            f"u={int(c['unitary'])} out={int(c['out'])}")
+            f"u={int(c['unitary'])} out={c.get('out_kind', int(c['out']))} forms={sorted(c.get('forms', {}).items())} dt={c.get('dtype', 'complex')}")
 
 def nontrivial(c):
     sq = c['shape'][0] == c['shape'][1] and _full_period(c)
@@ -118,10 +132,15 @@ def tags(c):
     if c['offset'][0] != c['offset'][1]: t.append('off_r!=off_c')
     if c['alpha'][0] < 0 or c['alpha'][1] < 0: t.append('negative-alpha')
     for a in c['aclass']: t.append('alpha:' + a)
+    for k, v in c.get('forms', {}).items(): t.append(f'form:{k}={v}')
+    if c.get('dtype', 'complex') != 'complex': t.append('dtype:' + c['dtype'])
+    if c.get('out_kind') == 'float': t.append('out=real-buffer')
     return t
 
 def shrink(c):
-    if c['out']: yield {**c, 'out': False}
+    if c['out'] or c.get('out_kind', 'none') != 'none': yield {**c, 'out': False, 'out_kind': 'none'}
+    if c.get('forms'): yield {**c, 'forms': {}}
+    if c.get('dtype', 'complex') != 'complex': yield {**c, 'dtype': 'complex'}
     if c['shift'] != [0.0, 0.0]: yield {**c, 'shift': [0.0, 0.0]}
     if c['offset'] != [0, 0]: yield {**c, 'offset': [0, 0]}
     if any(x != round(x) for x in c['re'] + c['im']):
@@ -138,37 +157,69 @@ def _pack(a):
 
 def _unpack(d): return (np.array(d['re']) + 1j * np.array(d['im'])).reshape(d['shape'])
 
+def _kwargs(c, with_offset):
+    """the call's keyword arguments in the case's argument forms (pair / scalar / default)"""
+    fm = c.get('forms', {})
+    kw = {'alpha': c['alpha'][0] if fm.get('alpha') == 'scalar' else tuple(c['alpha']), 'unitary': c['unitary']}
+    if fm.get('shape') == 'scalar': kw['shape'] = c['oshape'][0]
+    elif fm.get('shape') != 'none': kw['shape'] = tuple(c['oshape'])
+    if fm.get('shift') == 'scalar': kw['shift'] = c['shift'][0]
+    elif fm.get('shift') != 'default': kw['shift'] = tuple(c['shift'])
+    if with_offset:
+        if fm.get('offset') == 'scalar': kw['offset'] = c['offset'][0]
+        elif fm.get('offset') != 'default': kw['offset'] = tuple(c['offset'])
+    return kw
+
 def _call(fn, c, x, **kw):
-    """call with and (when requested) without out=; report whether both agree"""
-    fresh = fn(x.copy(), **kw)
-    info = {}
-    if c['out']:
+    """call on the caller's array itself (so that a write into it is seen), then (when requested) with out=; report whether
+    both agree; a real-valued buffer must be refused with TypeError"""
+    x0 = x.copy()
+    fresh = fn(x, **kw)
+    info = {'arg_untouched': bool(np.array_equal(x, x0) and x.dtype == x0.dtype)}
+    ok = c.get('out_kind', 'ok' if c['out'] else 'none')
+    if ok == 'ok':
         buf = np.full(tuple(c['oshape']), 7.5 - 2.5j, dtype=complex)
-        r = fn(x.copy(), out=buf, **kw)
-        info = {'same_obj': bool(r is buf), 'out_diff': float(np.max(np.abs(np.asarray(r) - fresh))) if r.shape == fresh.shape else -1.0,
-                'buf_diff': float(np.max(np.abs(buf - fresh))) if buf.shape == fresh.shape else -1.0}
+        r = fn(x, out=buf, **kw)
+        info.update({'same_obj': bool(r is buf), 'out_diff': float(np.max(np.abs(np.asarray(r) - fresh))) if r.shape == fresh.shape else -1.0,
+                     'buf_diff': float(np.max(np.abs(buf - fresh))) if buf.shape == fresh.shape else -1.0,
+                     'arg_untouched': bool(info['arg_untouched'] and np.array_equal(x, x0))})
         fresh = r
+    elif ok == 'float':
+        buf = np.zeros(tuple(c['oshape']), dtype=float)
+        try:
+            fn(x, out=buf, **kw); info['real_out'] = 'accepted'
+        except TypeError:
+            info['real_out'] = 'TypeError'
+        except Exception as e:
+            info['real_out'] = type(e).__name__
     return fresh, info
+
+def _input(c):
+    f = _f(c)
+    dt = c.get('dtype', 'complex')
+    if dt == 'float': return np.ascontiguousarray(f.real)
+    if dt == 'int': return np.ascontiguousarray(f.real).astype(np.int64)
+    return f
 
 def impl(c):
     vlib.import_lentil()
     import lentil.fourier as LF
-    f = _f(c)
-    f0 = f.copy()
+    f = _input(c)
     k = c['kind']
     if k == 'dft2':
-        F, info = _call(LF.dft2, c, f, alpha=tuple(c['alpha']), shape=tuple(c['oshape']), shift=tuple(c['shift']),
-                        offset=tuple(c['offset']), unitary=c['unitary'])
+        F, info = _call(LF.dft2, c, f, **_kwargs(c, True))
         res = {'F': _pack(F), **info}
     elif k == 'idft2':
-        F, info = _call(LF.idft2, c, f, alpha=tuple(c['alpha']), shape=tuple(c['oshape']), shift=tuple(c['shift']), unitary=c['unitary'])
+        F, info = _call(LF.idft2, c, f, **_kwargs(c, False))
         res = {'F': _pack(F), **info}
     else:
+        f0 = f.copy()
         F = LF.dft2(f, tuple(c['alpha']), unitary=c['unitary'])
         F0 = F.copy()
         g, info = _call(LF.idft2, c, F, alpha=tuple(c['alpha']), unitary=c['unitary'])
+        info['arg_untouched'] = bool(info['arg_untouched'] and np.array_equal(f, f0) and np.array_equal(F, F0))
         res = {'F': _pack(F0), 'g': _pack(g), **info}
-    res['input_untouched'] = bool(np.array_equal(f, f0))
+    res['input_untouched'] = res.pop('arg_untouched')
     return res
 
 def _arr_req(c):
@@ -222,7 +273,9 @@ def _dist(F, re, im):
 
 def oracle(c, io):
     f = _f(c); tol = _tol(c); k = c['kind']
-    if not io.get('input_untouched', True): return 'the input array was modified'
+    if not io.get('input_untouched', True): return 'the caller\'s input array was modified'
+    if io.get('real_out') not in (None, 'TypeError'):
+        return f"a real-valued out= buffer was not refused with TypeError ({io['real_out']}): the complex result cannot be stored in it"
     if c['out']:
         if not io.get('same_obj'): return 'out= given but a different array was returned'
         if not (0 <= io['out_diff'] <= 1e-13 * (1 + np.sum(np.abs(f))) and 0 <= io['buf_diff'] <= 1e-13 * (1 + np.sum(np.abs(f)))):
